@@ -400,8 +400,7 @@ def c_job(spec, key, none_ds=()):
     gpu = c_gset([k for k, t in enumerate(tasks) if t["gpu"]], cN)
     ext = c_gset(sorted(set(map(tuple, spec["ext"]))), c_ds)
     none = c_gset(sorted(none_ds), c_ds)
-    keym = c_gmap(sorted(key.items()), c_ds, cN)
-    return f"{{| j_ins := {ins}; j_nout := {nout}; j_gpu := {gpu}; j_ext := {ext}; j_none := {none}; j_key := {keym} |}}"
+    return f"{{| j_ins := {ins}; j_nout := {nout}; j_gpu := {gpu}; j_ext := {ext}; j_none := {none} |}}"
 
 
 def c_env(spec):
